@@ -458,22 +458,32 @@ pub fn tables_for(
         return Err(format!("driver cuts reply: {}", reply));
     }
     let mut out = vec![];
+    // the driver answers `START:END:FROM` per event: the matcher is shown `bytes[START..END]`, asked from `FROM`
+    // (line-oriented: the line's own content from 0; multi-line: the buffer cut after the look-ahead, from `rs`)
+    fn cut3(c: &str) -> Result<(usize, usize, usize), String> {
+        let v: Vec<&str> = c.split(':').collect();
+        if v.len() != 3 {
+            return Err(format!("bad cut {}", c));
+        }
+        let p = |x: &str| x.parse::<usize>().map_err(|_| format!("bad cut {}", c));
+        Ok((p(v[0])?, p(v[1])?, p(v[2])?))
+    }
     for (e, c) in t.evs.iter().zip(cuts) {
         out.push(match e {
-            Ev::Matched { buf, rs, .. } if need_matched => {
-                let cut: usize = c.parse().map_err(|_| format!("bad cut {}", c))?;
+            Ev::Matched { buf, .. } if need_matched => {
+                let (s, e, from) = cut3(c)?;
                 let b = &t.bufs[*buf];
-                if cut > b.len() {
+                if s > e || e > b.len() {
                     return Err("cut beyond buffer".into());
                 }
-                Some(table_sx(m, &b[..cut], *rs))
+                Some(table_sx(m, &b[s..e], from))
             }
             Ev::Context { bytes, .. } if need_ctx => {
-                let cut: usize = c.parse().map_err(|_| format!("bad cut {}", c))?;
-                if cut > bytes.len() {
+                let (s, e, from) = cut3(c)?;
+                if s > e || e > bytes.len() {
                     return Err("cut beyond context bytes".into());
                 }
-                Some(table_sx(m, &bytes[..cut], 0))
+                Some(table_sx(m, &bytes[s..e], from))
             }
             _ => None,
         });
@@ -613,6 +623,8 @@ pub const SINGLE_PATTERNS: &[&str] = &[
     "a", "b", "ab", "[ab]", "a*", "b*", "^", "$", "^$", r"\b", r"\B", "a|", "|b", "(a|b)+", ".", ".*", "a.c",
     r"\w+", r"\s", r"\bab\b", "a$", "^a", "c$", r"\w*", "x*", "(?:)", "a?", r"[^a]", r"\x{e9}", r"(?-u:\xff)",
     r"(?-u:[\x80-\xff])", r"\p{L}+", "é", "€", r"-", r" +", r"\d+", r"[a-c]{2}", r"a{0}", r"$^",
+    // anchors that tell "the line on its own" from "the line inside its buffer" (0cdcce3)
+    r"\Aa", r"a\z", r"\A", r"\z", r"(?-m)^a", r"(?-m)b$", r"(?-m)^", r"(?-m)$", r"\A[ab]+\z",
 ];
 
 pub const MULTI_PATTERNS: &[&str] = &[
